@@ -9,4 +9,9 @@ mkdir -p .cache evidence replays
 if ! cmp -s coq/Generated/Constants.v.new coq/Generated/Constants.v; then mv coq/Generated/Constants.v.new coq/Generated/Constants.v; else rm coq/Generated/Constants.v.new; fi
 (cd coq && coq_makefile -f _CoqProject -o Makefile >/dev/null 2>&1 && timeout 3000 make -j16 2>&1 | tail -5)
 (cd ocaml && ./build.sh)
+# the scc binaries that the CLI-level steps (C16 in-place mode, C18 robustness) run; the checks rebuild them
+# from the current tree on every run (cargo is a no-op when nothing changed)
+REPO="${VERIF_REPO:-/repo}"
+cargo build --offline -q --manifest-path "$REPO/Cargo.toml" --target-dir .cache/scc-target 2>&1 | tail -3
+cargo build --offline -q --release --manifest-path "$REPO/Cargo.toml" --target-dir .cache/scc-target 2>&1 | tail -3
 echo setup done
